@@ -31,9 +31,22 @@ def sortStrings (l : List String) : List String := (l.toArray.qsort (· < ·)).t
 def chain (args : List String) : String :=
   match args with
   | [cs, os] =>
-    match (cs.splitOn ";").mapM parseCert, os.splitOn "," with
-    | some certs, [now, host, usages] =>
-      match now.toInt?, (splitL usages).mapM String.toNat? with
+    -- times: certificates carry hours, the verification time hours plus an optional ".<nanoseconds>"; everything is
+    -- scaled to nanoseconds here (the model compares integers)
+    let hourNs : Int := 3600000000000
+    let nowOf (s : String) : Option Int :=
+      match s.splitOn "." with
+      | [h] => h.toInt?.map (· * hourNs)
+      | [h, ns] => match h.toInt?, ns.toInt? with
+        | some h, some ns => some (h * hourNs + ns)
+        | _, _ => none
+      | _ => none
+    let opts := os.splitOn ","
+    let forgedToo := opts.length == 4 && opts.getD 3 "" == "f"
+    match (cs.splitOn ";").mapM parseCert, (if opts.length == 3 || forgedToo then some (opts.take 3) else none) with
+    | some certs0, some [now, host, usages] =>
+      let certs := certs0.map fun (c, p) => ({ c with nb := c.nb * hourNs, na := c.na * hourNs }, p)
+      match nowOf now, (splitL usages).mapM String.toNat? with
       | some now, some usages =>
         let roots := (certs.filter fun (_, p) => p == "r" || p == "b" || p == "L").map (·.1)
         let inters := (certs.filter fun (_, p) => p == "i" || p == "b").map (·.1)
@@ -42,13 +55,16 @@ def chain (args : List String) : String :=
           let h := str host
           let ip := canonIP h
           let o : Opts := ⟨now, h, ip.isSome, ip.getD "", usages⟩
-          match verify roots inters leaf o with
-          | .ok chains => "ok " ++ ";".intercalate (sortStrings (chains.map fun c => ".".intercalate (c.map toString)))
-          | .critical => "err:critical"
-          | .leafInvalid r => "err:leaf:" ++ reasonStr r
-          | .hostname => "err:hostname"
-          | .noChain => "err:nochain"
-          | .usage => "err:usage"
+          let render (l : Cert) : String :=
+            match verify roots inters l o with
+            | .ok chains => "ok " ++ ";".intercalate (sortStrings (chains.map fun c => ".".intercalate (c.map toString)))
+            | .critical => "err:critical"
+            | .leafInvalid r => "err:leaf:" ++ reasonStr r
+            | .hostname => "err:hostname"
+            | .noChain => "err:nochain"
+            | .usage => "err:usage"
+          -- the forged copy: another encoding (so it is nobody's pool member), same contents, a signature nobody made
+          if forgedToo then render leaf ++ " // " ++ render { leaf with id := leaf.id + 700, signer := 0 } else render leaf
         | _ => "bad-op"
       | _, _ => "bad-op"
     | _, _ => "bad-op"
